@@ -292,6 +292,14 @@ PROPS["C05"]["mc"] = {
 }
 L2MC = {"dir": "mc", "module": "MC_L2.tla", "cfg": "MC_L2_b4.cfg", "workers": 6, "timeout": 3000}
 
+BEH_MODES = ["debug", "release"]
+PROPS["C17"]["tables"] = {"quick": [{"types": [(24, True), (64, False), (192, True)], "modes": BEH_MODES, "length": 30, "num": 25}],
+                          "thorough": [{"types": [(8, False), (16, True), (24, True), (32, False), (64, True), (64, False), (96, True), (128, False), (192, True), (256, False)], "modes": BEH_MODES, "length": 40, "num": 150}]}
+PROPS["C01"]["tables"] = {"quick": [{"types": [(96, False), (128, True)], "modes": ["debug"], "length": 30, "num": 25}],
+                          "thorough": [{"types": [(24, False), (64, True), (96, False), (128, True), (192, False), (256, True)], "modes": BEH_MODES, "length": 40, "num": 150}]}
+PROPS["C17"]["mc"] = {"quick": [{"dir": "mc", "module": "MC_Machine.tla", "cfg": "MC_Machine_i4q.cfg", "workers": 6, "timeout": 1800}],
+                      "thorough": [{"dir": "mc", "module": "MC_Machine.tla", "cfg": c, "workers": 10, "xmx": "8g", "timeout": 3000} for c in ("MC_Machine_u4.cfg", "MC_Machine_i4.cfg", "MC_Machine_u4r.cfg", "MC_Machine_i6.cfg")]}
+
 # model-checking configurations every check runs: the L1 big-number layer underlies every oracle
 COMMON_MC = {
     "quick": [{"dir": "mc", "module": "MC_Fast.tla", "cfg": "MC_Fast_b4.cfg", "workers": 4}],
@@ -305,12 +313,103 @@ COMMON_MC = {
 KNOWN_PREDICATES = {}
 
 
+def spec_hash():
+    import hashlib, glob, os
+    h = hashlib.sha256()
+    root = os.environ.get("VERIF_ROOT", "/verif")
+    for f in sorted(glob.glob(root + "/spec/*.tla") + glob.glob(root + "/spec/gen/*.tla") + glob.glob(root + "/spec/java/*.java")):
+        h.update(open(f, "rb").read())
+    return h.hexdigest()[:16]
+
+
+def gen_behaviours(chk, w, signed, mode, length, num, seed):
+    """TLC -simulate on spec/gen/GenBehaviours.tla; cached per (spec hash, parameters)"""
+    import os
+    root = os.environ.get("VERIF_ROOT", "/verif")
+    cdir = os.path.join(root, "cache", spec_hash())
+    os.makedirs(cdir, exist_ok=True)
+    name = "beh_w%d_%s_%s_l%d_n%d_s%d" % (w, "i" if signed else "u", mode, length, num, seed)
+    path = os.path.join(cdir, name + ".ndjson")
+    if os.path.exists(path) and os.path.getsize(path) > 0:
+        return path, 0, 0
+    cfgp = os.path.join(chk.WORK, name + ".cfg")
+    tmpl = open(os.path.join(root, "spec", "gen", "GenBehaviours.cfg.tmpl")).read()
+    open(cfgp, "w").write(tmpl.replace("@MODE@", mode).replace("@W@", str(w)).replace("@S@", "TRUE" if signed else "FALSE").replace("@LEN@", str(length)))
+    r = chk.tlc(os.path.join(root, "spec", "gen"), "GenBehaviours.tla", cfgp, workers=1, xmx="3g", timeout=1800,
+                extra=["-simulate", "num=%d" % num, "-depth", str(length + 2), "-seed", str(seed + 1)])
+    if "Error:" in r["out"] and "BEHAVIOUR" not in r["out"]:
+        raise chk.ToolError("behaviour generation failed:\n" + chk.tlc_tail(r["out"]))
+    if "is violated" in r["out"]:
+        raise chk.ToolError("the machine specification violated its own invariant during simulation:\n" + chk.tlc_tail(r["out"]))
+    seen = set()
+    with open(path + ".tmp", "w") as f:
+        for l in r["out"].splitlines():
+            if l.startswith('"BEHAVIOUR '):
+                body = json.loads(l)[len("BEHAVIOUR "):]
+                if body not in seen:
+                    seen.add(body)
+                    f.write(body + "\n")
+    os.replace(path + ".tmp", path)
+    return path, r["generated"], len(seen)
+
+
 def run_table(tb, bins, prop, seed, tier, chk):
-    raise NotImplementedError
+    """spec -> impl: replay TLC-generated machine behaviours into the real library"""
+    import os, subprocess
+    res = {"rows": 0, "behaviours": 0, "states": 0, "transitions": 0, "violations": [], "summary": {"behaviours": []}}
+    mbins = {}
+    for mode in tb["modes"]:
+        mbins[mode], _ = chk.build("machine", mode)
+    for (w, signed) in tb["types"]:
+        for mode in tb["modes"]:
+            path, gen, nb = gen_behaviours(chk, w, signed, mode, tb["length"], tb["num"], seed)
+            outp = os.path.join(chk.WORK, "%s_beh_%d_%s_%s.out" % (prop, w, signed, mode))
+            r = chk.run([mbins[mode], path, outp])
+            if r.returncode != 0:
+                raise chk.ToolError("behaviour replay failed:\n" + r.stdout[-3000:])
+            behs = [json.loads(l) for l in open(path)]
+            res["behaviours"] += len(behs)
+            res["rows"] += sum(len(b["steps"]) for b in behs)
+            res["states"] += sum(len(b["steps"]) for b in behs)
+            res["transitions"] += sum(len(b["steps"]) - 1 for b in behs)
+            nm = 0
+            for l in open(outp):
+                m = json.loads(l)
+                nm += 1
+                beh = behs_by_index(path, m["behaviour"])
+                st = beh["steps"][m["step"]]
+                ev = {"i": 0, "p": prop, "op": "machine:%s:%s" % (m["kind"], m["m"]), "w": w, "s": signed, "mode": mode, "impl": "bnum", "dts": [m["dt"]],
+                      "a": [{"t": "tag", "v": "behaviour %d step %d" % (m["behaviour"], m["step"])}],
+                      "fo": {"step": {"k": "got", "outcome": m["got"], "regs": m["got_regs"]}}, "pm": {}, "behaviour": beh, "step": m["step"]}
+                res["violations"].append((ev, {"step": {"k": "expected", "outcome": m["expected"], "regs": m["expected_regs"]}}, "behaviour:" + mode))
+            res["summary"]["behaviours"].append({"w": w, "signed": signed, "mode": mode, "behaviours": len(behs), "mismatching_steps": nm, "tlc_states_generated": gen})
+    return res
+
+
+def behs_by_index(path, idx):
+    for i, l in enumerate(open(path)):
+        if i == idx:
+            return json.loads(l)
+    return None
 
 
 def replay_table(rp, binp, chk):
-    raise NotImplementedError
+    import os
+    ev = rp["event"]
+    mode = ev["mode"]
+    mb, _ = chk.build("machine", mode)
+    inp = os.path.join(chk.WORK, "replay_beh.ndjson")
+    open(inp, "w").write(json.dumps(ev["behaviour"]) + "\n")
+    outp = inp + ".out"
+    r = chk.run([mb, inp, outp])
+    lines = open(outp).read().strip().splitlines()
+    chk.log(r.stdout.strip())
+    if lines:
+        chk.log(lines[0][:1500])
+        chk.log("VIOLATION property=%s replay=%s" % (rp["property"], "(the replayed behaviour)"))
+        return 1
+    chk.log("replay: the current tree follows the behaviour")
+    return 0
 
 DEFAULT_LEVEL_TEXT = ("TLC decides every recorded call against the explicit TLA+ specification of the API (exact integers, "
     "the overflowing pair and its projections): exhaustive over operand tuples at toy widths in the model-checking configurations, "
